@@ -200,13 +200,19 @@ pub fn seeds(seed: u64) -> Vec<Seed> {
     out
 }
 
-fn values(f: &Field, len: usize) -> Vec<u64> {
+fn values(f: &Field, len: usize, old: u64) -> Vec<u64> {
+    let mask: u64 = if f.width >= 8 { u64::MAX } else { (1u64 << (8 * f.width as u32)) - 1 };
+    // lies next to the truth: the recorded value a little off (off-by-one sizes and offsets, one crypto header more or less)
+    let near: Vec<u64> = [1i64, -1, 2, -2, 4, -4, 12, -12, 30, 46].iter().map(|d| (old as i64).wrapping_add(*d) as u64 & mask).collect();
     let mut v: Vec<u64> = match f.width {
         1 => vec![0, 1, 2, 3, 4, 0xff],
         2 => vec![0, 1, 2, 0x7fff, 0x8000, 0xfffe, 0xffff],
         4 => vec![0, 1, len as u64 - 1, len as u64, len as u64 + 1, 0x7fff_ffff, 0x8000_0000, 0xffff_fffe, 0xffff_ffff],
         _ => vec![0, 1, len as u64 - 1, len as u64, len as u64 + 1, 0x7fff_ffff, 0x8000_0000, 0xffff_fffe, 0xffff_ffff, 1 << 32, (1 << 32) + 1, 1 << 63, u64::MAX - 1, u64::MAX],
     };
+    if f.width >= 2 {
+        v.extend(near);
+    }
     if f.kind == 'm' {
         v.extend([8, 12, 93, 99]);
     }
@@ -216,7 +222,14 @@ fn values(f: &Field, len: usize) -> Vec<u64> {
     }
     v.sort();
     v.dedup();
+    v.retain(|x| *x != old);
     v
+}
+
+fn get(bytes: &[u8], f: &Field) -> u64 {
+    let mut le = [0u8; 8];
+    le[..f.width as usize].copy_from_slice(&bytes[f.pos..f.pos + f.width as usize]);
+    u64::from_le_bytes(le)
 }
 
 fn put(bytes: &mut [u8], f: &Field, v: u64) {
@@ -232,6 +245,10 @@ enum Family {
     Prefix { seed: usize },
     Suffix { seed: usize },
     Subst { seed: usize },
+    /// one byte removed at every position (everything behind it shifts by one)
+    Delete { seed: usize },
+    /// one byte (0x00, 0xff or 'P') inserted at every position
+    Insert { seed: usize },
     Single { seed: usize, fv: Arc<Vec<(usize, u64)>> },
     Pair { seed: usize, fv: Arc<Vec<(usize, u64)>> },
 }
@@ -254,15 +271,17 @@ impl Space {
         // smallest four for pairs
         let mut by_len: Vec<usize> = (0..seeds.len()).collect();
         by_len.sort_by_key(|&i| seeds[i].bytes.len());
-        let pair_seeds: Vec<usize> = by_len[..if thorough { 4 } else { 2 }].to_vec();
+        let pair_seeds: Vec<usize> = by_len[..if thorough { seeds.len() } else { 2 }].to_vec();
         for (si, s) in seeds.iter().enumerate() {
             push(Family::Prefix { seed: si }, s.bytes.len() as u64, &mut next);
             push(Family::Suffix { seed: si }, s.bytes.len() as u64, &mut next);
             // quick: structural bytes of the first entry's headers + end records only
             push(Family::Subst { seed: si }, s.structural.len() as u64 * 255, &mut next);
+            push(Family::Delete { seed: si }, s.bytes.len() as u64, &mut next);
+            push(Family::Insert { seed: si }, (s.bytes.len() as u64 + 1) * 3, &mut next);
             let mut fv = vec![];
             for (fi, f) in s.fields.iter().enumerate() {
-                for v in values(f, s.bytes.len()) {
+                for v in values(f, s.bytes.len(), get(&s.bytes, f)) {
                     fv.push((fi, v));
                 }
             }
@@ -300,6 +319,19 @@ impl Space {
                 let mut b = s.bytes.clone();
                 b[pos] = v;
                 (b, format!("{}: byte {pos} {old:#04x} -> {v:#04x}", s.label), "byte-substitution")
+            }
+            Family::Delete { seed } => {
+                let s = &self.seeds[*seed];
+                let mut b = s.bytes.clone();
+                b.remove(k as usize);
+                (b, format!("{}: byte {k} removed", s.label), "byte-deletion")
+            }
+            Family::Insert { seed } => {
+                let s = &self.seeds[*seed];
+                let mut b = s.bytes.clone();
+                let v = [0u8, 0xff, b'P'][(k % 3) as usize];
+                b.insert((k / 3) as usize, v);
+                (b, format!("{}: byte {v:#04x} inserted at {}", s.label, k / 3), "byte-insertion")
             }
             Family::Single { seed, fv } => {
                 let s = &self.seeds[*seed];
@@ -409,13 +441,14 @@ pub fn drive(bytes: &[u8], st: &mut Stats, case: &dyn Fn() -> Value, order: u64,
             }
             let names: Vec<String> = ar.file_names().take(16).map(|s| s.to_string()).collect();
             for i in 0..ar.len().min(16) {
-                for mode in 0..3 {
-                    let api = ["by_index", "by_index_raw", "by_index_decrypt"][mode];
+                for mode in 0..4 {
+                    let api = ["by_index", "by_index_raw", "by_index_decrypt", "by_index_decrypt(wrong password)"][mode];
                     let r = guard(|| {
                         let f = match mode {
                             0 => ar.by_index(i).ok(),
                             1 => ar.by_index_raw(i).ok(),
-                            _ => ar.by_index_decrypt(i, PW).ok().and_then(|r| r.ok()),
+                            2 => ar.by_index_decrypt(i, PW).ok().and_then(|r| r.ok()),
+                            _ => ar.by_index_decrypt(i, b"not the password").ok().and_then(|r| r.ok()),
                         };
                         match f {
                             None => "not-opened",
@@ -750,7 +783,7 @@ pub fn run(args: &Args) -> i32 {
     ctx.assume("memory bound for opening: peak live heap <= 1024 x input length + 1 MiB (the crate's own guard allows one record per input byte; measured ratio is reported in counters)");
     ctx.uncovered("random multi-site mutations (sampling); inputs larger than the seeds; more than two simultaneous field deviations");
     ctx.bound("cases", json!(space.total));
-    ctx.bound("families", json!(space.fams.iter().map(|(f, _, n)| format!("{}:{n}", match f { Family::Prefix { seed } => format!("prefix/{}", space.seeds[*seed].label), Family::Suffix { seed } => format!("suffix/{}", space.seeds[*seed].label), Family::Subst { seed } => format!("subst/{}", space.seeds[*seed].label), Family::Single { seed, .. } => format!("single/{}", space.seeds[*seed].label), Family::Pair { seed, .. } => format!("pair/{}", space.seeds[*seed].label) })).collect::<Vec<_>>()));
+    ctx.bound("families", json!(space.fams.iter().map(|(f, _, n)| format!("{}:{n}", match f { Family::Prefix { seed } => format!("prefix/{}", space.seeds[*seed].label), Family::Suffix { seed } => format!("suffix/{}", space.seeds[*seed].label), Family::Subst { seed } => format!("subst/{}", space.seeds[*seed].label), Family::Delete { seed } => format!("delete/{}", space.seeds[*seed].label), Family::Insert { seed } => format!("insert/{}", space.seeds[*seed].label), Family::Single { seed, .. } => format!("single/{}", space.seeds[*seed].label), Family::Pair { seed, .. } => format!("pair/{}", space.seeds[*seed].label) })).collect::<Vec<_>>()));
 
     let scratch = crate::foreign::scratch_root().join(format!("zipmc-{}-c05", std::process::id()));
     let _ = std::fs::create_dir_all(&scratch);
